@@ -4,9 +4,11 @@ import importlib
 _WORLD_MODULES = {
     "mux": "worlds.mux",
     "memmap": "worlds.memmap",
+    "arbiter": "worlds.arbiter",
 }
 PROPERTY_WORLD = {
     "C04": "mux", "C05": "mux",
+    "C08": "arbiter", "C09": "arbiter",
     "C02": "memmap", "C03": "memmap", "C18": "memmap",
 }
 _cache = {}
